@@ -121,7 +121,7 @@ def norm_nl(stream):
     return [(k, t.replace('\r\n', '\n').replace('\r', '\n') if k in ('str', 'chr') else t) for k, t in stream]
 
 
-def compare(x, out, lang, Tx, Tout):
+def compare(x, out, lang, Tx, Tout, strict=False):
     """-> list of (kind, locus, detail).  Tx/Tout: T-stage chunk lists of the input and of the output re-lexed."""
     res = []
     notes = []
@@ -140,9 +140,20 @@ def compare(x, out, lang, Tx, Tout):
         return res, notes
     bx, bo = own_boundaries(cx), own_boundaries(co)
     own_differs = bx != bo
-    tx = lex.lex(x, lang)
+    if lang in lex.CPP_CMT_SPLICE:
+        # under the strict reading of translation phase 2 a '//' comment is continued only by a backslash right before the line break:
+        # the output must not contain more such comments than the input (blanks stripped after the backslash would swallow the next line)
+        def spliced(d):
+            return sum(1 for t in lex.lex(d, lang, strict_splice=True) if t.kind == 'comment' and t.text.startswith('//') and
+                       ('\n' in t.text or '\r' in t.text))
+        n_in, n_out = spliced(x), spliced(out)
+        if n_out > n_in:
+            res.append(('lex', 'comment-splice-created', 'the output has %d // comments continued by a backslash directly before the line break, '
+                        'the input %d: the line after such a comment became part of it' % (n_out, n_in)))
+            return res, notes
+    tx = lex.lex(x, lang, strict_splice=strict)
     lx = norm_nl(lex.code_stream(tx))
-    lo = norm_nl(lex.code_stream(lex.lex(out, lang)))
+    lo = norm_nl(lex.code_stream(lex.lex(out, lang, strict_splice=strict)))
     lex_differs = lx != lo
     precise = lang in lex.PRECISE and well_lexed(tx)
     if lang == 'CS' and re.search(rb'\$@?"|@\$"', x):
